@@ -232,10 +232,20 @@ class GriffeLoader:
             self.expand_wildcards(wildcards_module, external=external)
 
         load_failures: set[str] = set()
-        while unresolved and unresolved != prev_unresolved and iteration < max_iterations:  # type: ignore[operator]
+        resolved: set[str] = set()
+        packages = len(collection)
+        # We iterate again as long as the previous iteration made progress: the set of unresolved aliases changed,
+        # or it is the same but other aliases were resolved or packages were loaded meanwhile
+        # (which can make aliases of that very set resolvable).
+        while (
+            unresolved
+            and (unresolved != prev_unresolved or resolved or len(collection) != packages)
+            and iteration < max_iterations  # type: ignore[operator]
+        ):
+            packages = len(collection)
             prev_unresolved = unresolved - {"0"}
             unresolved = set()
-            resolved: set[str] = set()
+            resolved = set()
             iteration += 1
             for module_name in list(collection.keys()):
                 module = collection[module_name]
